@@ -218,6 +218,12 @@ class Program:
     # ------------------------------------------------------------------ call resolution
     def local_imports(self, f):
         """function-local 'from .functions import add' statements, innermost first."""
+        c = self.__dict__.setdefault("_li_cache", {})
+        if f.qualname not in c:
+            c[f.qualname] = self._local_imports(f)
+        return c[f.qualname]
+
+    def _local_imports(self, f):
         out = {}
         chain = []
         g = f
@@ -267,6 +273,13 @@ class Program:
         return None
 
     def resolve_call(self, f, call, fxp_names=()):
+        c = self.__dict__.setdefault("_rc_cache", {})
+        k = (f.qualname, id(call), tuple(fxp_names))
+        if k not in c:
+            c[k] = (self._resolve_call(f, call, fxp_names), call)   # keep node alive so ids stay unique
+        return c[k][0]
+
+    def _resolve_call(self, f, call, fxp_names=()):
         """Resolve the callee of an ast.Call inside f.
 
         Returns a qualname of a repo function, 'class:objects.Fxp' for constructor calls,
